@@ -239,6 +239,39 @@ def stdin_repeat_oracle():
     return None
 
 
+def warning_repeat_oracle():
+    """Warnings are part of a run's output: a program whose stack pointer enters the data segment warns once per run,
+    also on a machine that ran such a program before (seed C15j kept the warn-once bookkeeping across reset())."""
+    from hera.data import Settings
+    from hera.loader import load_program
+    from hera.vm import VirtualMachine
+    progs = {"deep": "SET(SP, 0xD000)\nSET(R1, 1)\nHALT()\n", "inc": "SET(SP, 0xC000)\nINC(SP, 5)\nHALT()\n",
+             "plain": "SET(R1, 2)\nHALT()\n", "ret": "SET(R13, 7)\nSET(R12, 9)\nSET(SP, 0xE000)\nHALT()\n"}
+
+    def run_on(vm, st, name):
+        prog, exc0, _, _ = run_real(lambda: load_program(progs[name], st))
+        if exc0 or prog is None:
+            return ("rejected", exc0)
+        before = st.warning_count
+        _, exc, out, err = run_real(lambda: vm.run(prog))
+        return (exc, out, err, vm.warning_count, st.warning_count - before, vm.registers[:], vm.halted)
+    for order in (("deep", "deep"), ("deep", "plain", "deep"), ("inc", "deep"), ("deep", "inc"), ("ret", "plain", "inc"),
+                  ("plain", "deep", "deep")):
+        st = Settings(color=False)
+        st.throttle = 50
+        vm = VirtualMachine(st)
+        last = None
+        for name in order:
+            last = run_on(vm, st, name)
+        st2 = Settings(color=False)
+        st2.throttle = 50
+        fresh = run_on(VirtualMachine(st2), st2, order[-1])
+        if last != fresh:
+            return ("programs run in the order %s on one machine: the last run gives (exception, stdout, stderr, warnings, "
+                    "registers, halted) = %r, on a fresh machine %r" % (" -> ".join(order), last, fresh))
+    return None
+
+
 def correspondence(ctx, model_available=True):
     quick = ctx.tier == "quick"
     rng = ctx.rng
@@ -276,6 +309,9 @@ def correspondence(ctx, model_available=True):
     if bad:
         spec_failures.append({"what": bad})
     bad = stdin_repeat_oracle()
+    if bad:
+        spec_failures.append({"what": bad})
+    bad = warning_repeat_oracle()
     if bad:
         spec_failures.append({"what": bad})
     bad = cli_throttle_oracle()
